@@ -203,6 +203,11 @@ def runExact {α : Type} : Prog α → Bytes → α
   | .ret a, _ => a
   | .read n k, rest => runExact (k (exactRead rest n).1) (exactRead rest n).2
 
+/-- as `runExact`, also giving the part of the stream that was not read -/
+def runExactR {α : Type} : Prog α → Bytes → α × Bytes
+  | .ret a, rest => (a, rest)
+  | .read n k, rest => runExactR (k (exactRead rest n).1) (exactRead rest n).2
+
 /-- run a client that calls `io.ReadFull(r, buf[:n])` on the reader directly (no read buffer) -/
 def runFull {α : Type} : Prog α → Sched → α
   | .ret a, _ => a
